@@ -3,7 +3,7 @@ from .. import lib, runner
 
 PROP = "C12"
 THEOREMS = ["Act.rw_holds_init", "Act.rw_last_write", "Act.rw1c_step", "Act.rw1s_step", "Act.no_bits_beyond_width", "Act.bit_independent", "Act.r_passthrough", "Act.w_passthrough", "Act.reserved_inert", "Act.data_eq_r_data", "Act.testBit_ofBits"]
-IMPORTS = ["SocVerif"]
+IMPORTS = ["SocVerif.Props.C12"]
 
 
 def nontrivial(r):
